@@ -137,7 +137,9 @@ def build_v2(spec):
     if any(r["kind"] == "shipped" for r in outs):
         co.append("import nemoguardrails.library.self_check.output_check")
     co.append("")
-    co.append("flow main\n  activate conversation\n")
+    co.append("flow main\n  activate conversation\n" + ("  activate tracker\n" if spec.get("tracker") else ""))
+    if spec.get("tracker"):
+        co.append(V2_TRACKER)
     mode = spec.get("mode", "rails_only")
     # one turn: wait for any user utterance (input rails run inside `user said something`), ask the
     # LLM through a simulated generation action (its text is 'LLM made'), say it (output rails run).
@@ -154,6 +156,26 @@ def build_v2(spec):
         for i, r in enumerate(outs):
             co.append(_v2_rail_flow("out", i, r))
     return y, "\n".join(co)
+
+
+# C11 (API family): a flow in its own interaction loop that lives across turns and keeps values of the types the
+# property names (regex, set, nested containers, a reference to an event) and makes them observable in later turns
+V2_TRACKER = '''
+@loop("tracker")
+flow tracker
+  $pat = regex("topic ([0-9])")
+  $marks = {"a", "b"}
+  $nest = {"k": {"n": [1, {"z": "q"}]}}
+  $topics = []
+  $n = 0
+  match UtteranceUserActionFinished() as $first
+  while True
+    match UtteranceUserActionFinished() as $ev
+    $n = $n + 1
+    $topics = $topics + find_all($pat, $ev.final_transcript)
+    if $n == 1 or $n == 3
+      await UtteranceBotAction(script="TRK {$n} {$topics} {len($marks)} {$nest} first={$first.final_transcript} re={search($pat, $ev.final_transcript)}")
+'''
 
 
 V2_LLM_COLANG = '''
